@@ -65,6 +65,7 @@ Judge(exp, out, strict) ==
   IF te = "unspec" THEN "unspec"
   ELSE IF te = "refused" THEN (IF to = "raised" THEN "ok" ELSE "not-refused")
   ELSE IF to = "noreturn" THEN "noreturn"
+  ELSE IF to = "mutated" THEN "operand-modified"
   ELSE IF to = "raised" THEN (IF te \in {"partial", "pcol"} /\ ~AllClaimed(exp[4]) THEN "unspec" ELSE "raised")
   ELSE JudgeValue(exp, out, strict)
 =======================================================================
